@@ -22,7 +22,7 @@ macro "asg_cases" : tactic => `(tactic| (
     simp only [OpdTy, ctyOf, WTy.isSmall, Bool.false_eq_true, if_false, if_true, and_self, not_true_eq_false,
       reduceCtorEq, false_and, or_false, and_false, true_and, beq_self_eq_true, Bool.or_true,
       Bool.true_or, and_true, not_false_eq_true, beq_iff_eq, Bool.or_eq_true] at hyt <;>
-    (try (rcases hyt with hyt | hyt)) <;> (try subst hyt) <;>
+    (try (rcases hyt with hyt | hyt | hyt)) <;> (try subst hyt) <;>
     simp [WOp.defined, WTy.has, WTy.max, WTy.bits, CTy.has, CTy.bits, INT_MIN, INT_MAX] at hdef hxr hyr hyw))
 
 macro "asg_eval" : tactic => `(tactic| (
